@@ -501,9 +501,65 @@ def search_truncate(ctx):
                         return
 
 
+def fresh_scaled_generator_curve(t, z):
+    """a user-defined Curve whose base point is handed over in Jacobian form with Z = z != 1 and generator=True - a FRESH curve
+    and generator object on every call, so that the generator's first multiplication (which builds its table) happens on the
+    unscaled object (round-8 seed C03-mut56-1 took the first table entry from the stored X, Y)"""
+    from ecdsa.ellipticcurve import CurveFp, PointJacobi
+    from ecdsa.curves import Curve
+    cf = CurveFp(t.p, t.a, t.b, 1)
+    gen = PointJacobi(cf, t.G[0] * z * z % t.p, t.G[1] * z * z * z % t.p, z, t.n, generator=True)
+    return Curve("toyz", cf, gen, (1, 2, 3, 4))
+
+
+def check_scaled_generator(t, z, d, k, e):
+    """None or a failure description: public key of d and (r, s) of (d, e, k) on a fresh curve with a scaled generator"""
+    from ecdsa import SigningKey
+    from ecdsa.ecdsa import RSZeroError
+    n = t.n
+    try:
+        sk = SigningKey.from_secret_exponent(d, fresh_scaled_generator_curve(t, z))
+        pt = sk.verifying_key.pubkey.point
+        pub = (int(pt.x()), int(pt.y()))
+    except Exception as ex:  # noqa
+        return {"observed": "exception " + type(ex).__name__, "expected": {"public_point": list(t.mult[d])}}
+    if pub != tuple(t.mult[d]):
+        return {"observed": {"public_point": list(pub)}, "expected": {"public_point": list(t.mult[d])}}
+    R = t.mult[k]
+    r = R[0] % n
+    s_ = pow(k, -1, n) * (e + r * d) % n
+    want = "RSZeroError" if (r == 0 or s_ == 0) else [r, s_]
+    try:
+        sk2 = SigningKey.from_secret_exponent(d, fresh_scaled_generator_curve(t, z))     # signing is the FIRST use of this generator... after d*G
+        got = list(sk2.sign_number(e, k=k))
+    except RSZeroError:
+        got = "RSZeroError"
+    except Exception as ex:  # noqa
+        got = "exception " + type(ex).__name__
+    if got != want:
+        return {"observed": {"signature": got}, "expected": {"signature": want}}
+    return None
+
+
 def search_toy(ctx):
     from ecdsa.ecdsa import RSZeroError
     rng, q = ctx.rng, ctx.quick
+    # (2z) user curves whose generator is given with Z != 1 (fresh objects per key): d*G and (r, s) against the tables
+    for t in E.get_fixed_toys()[:3 if q else 8]:
+        for z in (2, 3, t.p - 1):
+            for d in range(1, t.n):
+                k = rng.randrange(1, t.n)
+                e = rng.randrange(0, t.n + 2)
+                ctx.cov["search_evaluations"] += 1
+                ctx.hist("search.class", "toy scaled generator (Z != 1)")
+                bad = check_scaled_generator(t, z, d, k, e)
+                if bad:
+                    rec = {"input": {"kind": "scaled-generator", "curve": t.spec(), "z": z, "d": d, "k": k, "e": e}, "class": "toy scaled generator",
+                           "replayable": True}
+                    rec.update(bad)
+                    ctx.violation(rec)
+                    if E.capped(ctx):
+                        return
     # (2) toy curves, exhaustive over d, k in [1, n-1], e in [0, n+1] (+ a few larger e): fast loop, confirm via case
     toys = E.get_fixed_toys() + E.pick_toys(rng, 1 if q else 6, nmax=31 if q else 80)
     for t in toys:
@@ -654,4 +710,8 @@ def search_named(ctx):
 
 
 def replay(rec):
+    i = rec.get("input")
+    if isinstance(i, dict) and i.get("kind") == "scaled-generator":
+        t = E.toy_from_spec(i["curve"])
+        return check_scaled_generator(t, int(i["z"]), int(i["d"]), int(i["k"]), int(i["e"])) is not None
     return E.replay_record(rec, run_case, lambda c: c.get("kind") in CASES)
